@@ -183,6 +183,8 @@ def long_scripts(rng, quick):
     add("rtpfb", {"twcc": 1}, 60000 * m, 6, ns=1, fb=300, wls=["inorder", "loss", "burst"], thens=["none", "drain"])
     add("rtpfb", {"twcc": 1}, 20000 * m, 6, ns=1, fb=200, wls=["dup", "mix", "reorder", "dup"], thens=["none", "drain"])   # numbers sent twice
     add("rtpfb", {"twcc": 0}, 3000, 2, ns=1, fb=0)                                                      # known finding
+    add("rtpfb", {"twcc": 0}, 36000 * m, 3, ns=1, fb=6000, wls=["inorder", "loss"], thens=["none"])     # few, very large reports
+    add("rtpfb", {"twcc": 1}, 36000 * m, 3, ns=1, fb=6000, wls=["inorder", "loss"], thens=["none"])
     add("rrecv", {}, 70000 * m, 8, ns=3)
     add("rsend", {}, 70000 * m, 8, ns=3)
     add("stats", {}, 20000 * m, 8, ns=3, tick=10)
